@@ -11,10 +11,12 @@ class C05(Prop):
     id = "C05"
     title = "5G-AKA: RES* and the NAS key hierarchy equal what the network derives"
     lean_module = "Stgutg.Props.C05"
-    extra_modules = ["Stgutg.Proofs.GenTieKdf", "Stgutg.Gen.PureSelftest"]
-    gen = ["pure-kdf", "pure-selftest"]
+    extra_modules = ["Stgutg.Props.Glue.stgutg_RegisterUE", "Stgutg.Props.Glue.tglib_RanUeContext_DeriveRESstarAndSetKey", "Stgutg.Props.Glue.tglib_RanUeContext_DerivateKamf", "Stgutg.Props.Glue.tglib_RanUeContext_DerivateAlgKey", "Stgutg.Props.Glue.tglib_GetAuthSubscription", "Stgutg.Proofs.GenTieKdf", "Stgutg.Gen.PureSelftest"]
+    gen = ["pure-kdf", "pure-selftest", "procs"]
     # tie by translation: KDFLen regenerated from UeauCommon.go IS the hand model
-    theorems = ["Stgutg.Proofs.GenTie.Kdf.KDFLen_eq"] + ["Stgutg.Props.C05." + n for n in [
+    theorems = ["Stgutg.Props.GluePinned." + t for t in [
+        # the glue functions this property depends on are still the text the models were written from (gen procs)
+        "stgutg_RegisterUE", "tglib_RanUeContext_DeriveRESstarAndSetKey", "tglib_RanUeContext_DerivateKamf", "tglib_RanUeContext_DerivateAlgKey", "tglib_GetAuthSubscription"]] + ["Stgutg.Proofs.GenTie.Kdf.KDFLen_eq"] + ["Stgutg.Props.C05." + n for n in [
         "kdf_eq_spec", "kdf_is_hmac_of_concat", "kausf_kseaf_kamf_eq_spec", "algkey_eq_spec",
         "snname_2digit", "snname_3digit", "snname_length", "milenage_f2345_eq_spec", "resstar_eq_spec",
         "derive_eq_spec", "op_opc"]]
